@@ -14,6 +14,7 @@ from __future__ import annotations
 from typing import Any, Callable, Mapping, Sequence, Union
 
 import onnx_ir as ir
+from onnx_ir import _convenience
 
 import onnxscript
 from onnxscript._internal import _inliner
@@ -771,11 +772,24 @@ class GraphBuilder(BuilderBase):
     ):
         if isinstance(function, ir.Function):
             graph = function.graph
+            function_ir = function
         elif isinstance(function, onnxscript.OnnxFunction):
             # TODO(justinchuby): Reason about support for outer-scope values in inlined function bodies.
             graph = function.graph().clone(allow_outer_scope_values=True)
+            function_ir = function.function_ir
         else:
             raise TypeError("Function must be an ir.Function or onnxscript.OnnxFunction")
+        # Attribute values: accept plain Python values like ``call`` does, and use the
+        # function's declared default for an attribute parameter that is not passed
+        # (a function node would get it from the function definition).
+        attr_map: dict[str, ir.Attr] = (
+            {attr.name: attr for attr in _convenience.convert_attributes(kwargs)}
+            if kwargs
+            else {}
+        )
+        for attr_name, attr in function_ir.attributes.items():
+            if attr_name not in attr_map and attr.value is not None:
+                attr_map[attr_name] = attr
         if _outputs is not None:
             if len(_outputs) != len(graph.outputs):
                 raise ValueError(
@@ -795,7 +809,7 @@ class GraphBuilder(BuilderBase):
 
         count = self._node_count()
         node_name_prefix = self._qualify_node_name(f"{function.name}_node_{count}/")
-        nodes, outputs = _inliner.instantiate(graph, args, kwargs, prefix=node_name_prefix)
+        nodes, outputs = _inliner.instantiate(graph, args, attr_map, prefix=node_name_prefix)
 
         # Track final output values so we can rename them separately.
         # The inliner prefixes all names, which would prevent name-based lookup
